@@ -211,6 +211,7 @@ CONFIGS = {
         ({(1, 1): "full", (1, 2): "full", (2, 1): "sharp", (2, 2): "sharp"}, 2),
         ({(3, 3): "small"}, 1),
         ({(2, 3): "small", (3, 2): "small"}, 2),
+        ({(1, 6): "sharp", (4, 1): "small"}, 2),
     ],
     "thorough": [
         ({(1, 1): "full", (1, 2): "full", (2, 1): "full", (2, 2): "sharp"}, 2),
@@ -219,6 +220,7 @@ CONFIGS = {
         ({(2, 3): "sharp", (3, 2): "sharp", (2, 2): "small"}, 2),
         ({(4, 4): "small"}, 1),
         ({(1, 3): "full", (3, 1): "full", (1, 1): "full"}, 2),
+        ({(1, 8): "sharp", (5, 1): "small", (1, 6): "sharp"}, 2),
     ],
 }
 
